@@ -400,8 +400,7 @@ class ndarray:
         if len(key) == 1 and isinstance(key[0], ndarray):
             ia = key[0]
             if ia.kind not in ('i',):
-                if ia.size == 0:
-                    return [], (0,) + self.shape[1:], False
+                # numpy refuses float / object index arrays even when they are empty (np.array([]) is float64)
                 raise IndexError("arrays used as indices must be of integer (or boolean) type")
             if ia.ndim != 1:
                 raise ModelGap("integer-array indexing only with 1-D index arrays")
@@ -1673,6 +1672,30 @@ class _AddUfunc:
 
 
 add = _AddUfunc()
+
+
+def searchsorted(a, v, side='left'):
+    """insertion indices into the sorted 1-D array ``a`` (comparisons stay symbolic: decisions)."""
+    a = asarray(a)
+    if a.ndim != 1:
+        raise ModelGap("searchsorted ndim != 1")
+    if side not in ('left', 'right'):
+        raise ValueError("side must be 'left' or 'right'")
+    av = a._flat_values()
+
+    def one(x):
+        k = 0
+        for y in av:
+            c = (y < x) if side == 'left' else (y <= x)
+            if symx.truth(c):
+                k += 1
+            else:
+                break
+        return i64(k)
+    if isinstance(v, (list, tuple, ndarray)) or _is_series(v):
+        vv = asarray(v)
+        return ndarray._from_flat([one(x) for x in vv._flat_values()], vv.shape, 'i')
+    return one(v)
 
 
 def array_equal(a, b):
